@@ -4,7 +4,7 @@
 # (VERIF_REPO); used while other work is using /repo itself.  The final confirmation of each seeded
 # change is done by applying it to /repo (git -C /repo apply; check; git -C /repo checkout -- .).
 set -u
-patch=$1; shift
+patch=$(readlink -f "$1"); shift
 wt=$(mktemp -d /tmp/seedrun.XXXXXX); rmdir $wt
 git -C /repo worktree add -f $wt HEAD -q || exit 3
 git -C $wt apply $patch || { echo "patch does not apply"; git -C /repo worktree remove --force $wt; exit 3; }
